@@ -275,7 +275,9 @@ type obs struct {
 	closed    bool
 	hung      bool // neither an answer nor a close within the watchdog
 	anomalies []string
-	frames    int
+	frames    int  // media frames received during this step
+	media     bool // media was received BEFORE the response to this request (wsp: at any time during it)
+	timedOut  bool // a watchdog expired while this step was observed
 	panicked  string
 }
 
@@ -345,7 +347,14 @@ type execResult struct {
 	pulseDone bool
 	pulseBad  string
 	err       string
+	timedOut  bool // some watchdog expired during the run: the run is repeated alone before anything is reported
 }
+
+// payload of the packets written to every stream after each step, so that a session that sends
+// media it should not send has media to send
+var stepPayload = []byte{0x80, 96, 0, 9, 0, 0, 0, 2, 0, 0, 0, 7, 'c', '1', '2', '-', 's', 't', 'e', 'p'}
+
+var pulseBudget = sl.Watchdog
 
 // exec runs the script against a fresh real session
 func (w *world) exec(s script, fin map[string]string) (res execResult) {
@@ -375,12 +384,33 @@ func (w *world) exec(s script, fin map[string]string) (res execResult) {
 	}
 	sid := ""
 	closed := false
+	exp0 := sl.Expiries
+	defer func() {
+		if sl.Expiries != exp0 {
+			res.timedOut = true
+		}
+	}()
+	// media is pumped after every step, except while the session may hold a UDP consumer (some SETUP
+	// so far asked for UDP unicast and a consumer is attached): it would send datagrams to a port
+	// nobody listens on
+	sawUDP := false
+	pumpAll := func() {
+		if sawUDP && w.consumers() > 0 {
+			return
+		}
+		for _, f := range w.fixtures {
+			st := f.Stream
+			sl.Guard(sl.Watchdog, func() { st.WriteRtpPacket(&rtp.Packet{Channel: 0, Data: stepPayload}) })
+		}
+	}
 	collect := func(o *obs, reqCSeq, barrier string) {
 		// gather until the barrier's response (or EOF / watchdog)
+		answered := false
 		for {
 			it, ok := c.Next()
 			if !ok {
 				o.hung = true
+				o.timedOut = true
 				return
 			}
 			switch it.Kind {
@@ -390,6 +420,9 @@ func (w *world) exec(s script, fin map[string]string) (res execResult) {
 				return
 			case sl.KFrame:
 				o.frames++
+				if !answered || s.flav == "wsp" {
+					o.media = true
+				}
 			case sl.KAnomaly:
 				o.anomalies = append(o.anomalies, it.What)
 			case sl.KResp:
@@ -399,6 +432,7 @@ func (w *world) exec(s script, fin map[string]string) (res execResult) {
 					}
 					return
 				}
+				answered = true
 				o.resps = append(o.resps, it)
 				if s.flav == "wsp" && !it.WspOK {
 					o.anomalies = append(o.anomalies, "wsp envelope")
@@ -437,6 +471,9 @@ func (w *world) exec(s script, fin map[string]string) (res execResult) {
 		}
 		q, _ := parseWire(st)
 		o := obs{method: q.method, transport: q.transport}
+		if q.method == "SETUP" && strings.Contains(q.transport, "client_port") {
+			sawUDP = true
+		}
 		if err := c.Send(st); err != nil {
 			o.closed, closed = true, true
 			o.anomalies = append(o.anomalies, "send failed: "+err.Error())
@@ -458,6 +495,9 @@ func (w *world) exec(s script, fin map[string]string) (res execResult) {
 		}
 		o.cons, o.pub = w.consumers(), w.published(paths)
 		res.obs = append(res.obs, o)
+		if !closed {
+			pumpAll() // whatever this makes the session send is seen in front of the next response
+		}
 	}
 	// final pulse: if the session consumes over its own connection, packets of all four
 	// channel types must come out on the negotiated interleaved channels (the model's table)
@@ -509,7 +549,7 @@ func (w *world) exec(s script, fin map[string]string) (res execResult) {
 				src.WriteRtpPacket(&rtp.Packet{Channel: byte(k), Data: pulsePayload(k)})
 			}
 			take := func(it sl.Item) {
-				if it.Kind == sl.KFrame && string(it.Payload) == string(probe) {
+				if it.Kind == sl.KFrame && (string(it.Payload) == string(probe) || string(it.Payload) == string(stepPayload)) {
 					return
 				}
 				if it.Kind == sl.KFrame {
@@ -526,7 +566,8 @@ func (w *world) exec(s script, fin map[string]string) (res execResult) {
 			// response flushes it, and the consumption goroutine may still be inside its last Consume
 			// when the queue is already empty: repeat drain + barrier until everything expected has
 			// arrived (a few rounds at most on the unchanged code), then one more barrier for extras.
-			for round := 0; round < 30 && !closed; round++ {
+			pulseDeadline := time.Now().Add(pulseBudget)
+			for round := 0; !closed; round++ {
 				sl.WaitUntil(func() bool {
 					rt, _, _, _ := src.VerifTables()
 					for _, x := range rt {
@@ -556,7 +597,18 @@ func (w *world) exec(s script, fin map[string]string) (res execResult) {
 					break
 				}
 				if got < want {
-					time.Sleep(time.Duration(round) * time.Millisecond) // ≈ 0.4 s in total before giving up
+					// not there yet (the consumption goroutine is still inside Consume, or the frame sits in the
+					// write buffer): go round again; give up only when the watchdog expires
+					if time.Now().After(pulseDeadline) {
+						sl.Expiries++
+						pulseBudget = 3 * time.Second
+						break
+					}
+					d := time.Duration(round) * 200 * time.Microsecond
+					if d > 20*time.Millisecond {
+						d = 20 * time.Millisecond
+					}
+					time.Sleep(d)
 				}
 			}
 		} else {
@@ -981,12 +1033,27 @@ func runScripts(c *Ctx, w *world, scripts []script) {
 	mouts := c.Drive(mlines)
 	var lines []string
 	var pend []pending
+	reruns := 0
 	for i, s := range ok1 {
 		fin := map[string]string{}
 		if parts := strings.SplitN(mouts[i], " || ", 2); len(parts) == 2 {
 			fin = KV(parts[1])
 		}
 		res := w.exec(s, fin)
+		if res.timedOut || res.err != "" {
+			// a watchdog expired (or the session could not be set up): a busy machine must not become a
+			// finding.  The script is run once more, alone; the first few times with the full budgets.
+			c.Count("script-rerun")
+			if reruns < 3 {
+				sl.FullBudgets()
+				pulseBudget = sl.Watchdog
+			}
+			reruns++
+			res = w.exec(s, fin)
+			if !res.timedOut && res.err == "" {
+				c.Count("script-rerun-clean")
+			}
+		}
 		if res.err != "" {
 			c.Find(Finding{Kind: "corr", Class: "harness-error", Case: s.caseLine(), Impl: res.err})
 			continue
@@ -1006,7 +1073,7 @@ func runScripts(c *Ctx, w *world, scripts []script) {
 			if o.hangup {
 				m = "-"
 			}
-			fmt.Fprintf(&jb, " %s %s %s %d %d %s %s %d %s %s", B01(o.hangup), m, hx(o.transport), o.nresp, code, B01(o.cseqOK), B01(o.sidOK), o.cons, B01(o.pub), B01(o.closed))
+			fmt.Fprintf(&jb, " %s %s %s %d %d %s %s %d %s %s %s", B01(o.hangup), m, hx(o.transport), o.nresp, code, B01(o.cseqOK), B01(o.sidOK), o.cons, B01(o.pub), B01(o.closed), B01(o.media))
 		}
 		pend = append(pend, pending{s, res, i, len(lines)})
 		lines = append(lines, jb.String())
@@ -1065,6 +1132,9 @@ func runScripts(c *Ctx, w *world, scripts []script) {
 			}
 			if o.hung {
 				c.Count("hung")
+			}
+			if o.media {
+				c.Count("media-before-response-" + s.flav)
 			}
 			for _, a := range o.anomalies {
 				if a != "empty message" {
@@ -1203,7 +1273,11 @@ func runPT(c *Ctx, g *gen) {
 	}
 	outs := c.Drive(lines)
 	for i, k := range cases {
-		impl := implPT(k.init, k.calls)
+		impl := "hang"
+		if returned, _ := sl.Guard(sl.Watchdog, func() { impl = implPT(k.init, k.calls) }); !returned {
+			c.Find(Finding{Kind: "oracle", Class: "parse-transport-hang", Case: lines[i], Impl: "ParseTransport did not return within " + sl.Watchdog.String(), Spec: "ParseTransport returns", Detail: fmt.Sprintf("%q", k.calls)})
+			break
+		}
 		nontriv := false
 		for _, cl := range k.calls {
 			if strings.Contains(cl[1], ";") {
@@ -1359,7 +1433,11 @@ func runWspDecode(c *Ctx) {
 	}
 	outs := c.Drive(lines)
 	for i, s := range cases {
-		impl := implWspDecode(s)
+		impl := "hang"
+		if returned, _ := sl.Guard(sl.Watchdog, func() { impl = implWspDecode(s) }); !returned {
+			c.Find(Finding{Kind: "oracle", Class: "wsp-decode-hang", Case: lines[i], Impl: "DecodeStringRequest did not return within " + sl.Watchdog.String(), Spec: "DecodeStringRequest returns", Detail: fmt.Sprintf("%q", s)})
+			break
+		}
 		c.Eval(lines[i], strings.Contains(s, "\r\n\r\n"))
 		c.Count("wspdec-cases")
 		if strings.HasPrefix(impl, "err=") {
